@@ -99,8 +99,8 @@ mut("m12d_maq_first_twice", "C12", CTRL, "        for i in 1..self.input_values.
 mut("m12e_ma_trim_to_now", "C12", CTRL, "        while self.input_values[0].time <= output.time - self.window {", "        while self.input_values[0].time <= output.time {", occ=0, note="empties the queue -> index panic")
 mut("m12f_ma_start_oldest", "C12", CTRL, "        start_times.push_front(output.time - self.window);", "        start_times.push_front(self.input_values[0].time);", occ=0)
 # ---- C13
-mut("m13a_gear_forward_div", "C13", DEV, "                    if datum1.time >= datum2.time {\n                        let newdatum2 = datum1 * self.ratio;", "                    if datum1.time >= datum2.time {\n                        let newdatum2 = datum1 / self.ratio;")
-mut("m13b_gear_side1_always", "C13", DEV, "                    if datum1.time >= datum2.time {\n                        let newdatum2 = datum1 * self.ratio;", "                    if true {\n                        let newdatum2 = datum1 * self.ratio;")
+mut("m13a_gear_forward_div", "C13", DEV, "                    if datum1.time > datum2.time {\n                        let newdatum2 = datum1 * self.ratio;", "                    if datum1.time > datum2.time {\n                        let newdatum2 = datum1 / self.ratio;")
+mut("m13b_gear_side1_always", "C13", DEV, "                    if datum1.time > datum2.time {\n                        let newdatum2 = datum1 * self.ratio;", "                    if true {\n                        let newdatum2 = datum1 * self.ratio;")
 mut("m13c_invert_no_sign", "C13", DEV, "self.term2.borrow_mut().set(-datum_command)?;", "self.term2.borrow_mut().set(datum_command)?;")
 mut("m13d_axle_first_present", "C13", DEV, "            maybe_datum.replace_if_none_or_older_than_option(i.borrow().get()?);", "            if maybe_datum.is_none() { maybe_datum = i.borrow().get()?; }")
 mut("m13e_replace_ge", "C13", DATUM, "            if self_datum.time >= maybe_replace_with.time {\n                return false;", "            if self_datum.time > maybe_replace_with.time {\n                return false;", note="ties only; expected NOT observable with unique stamps")
@@ -131,7 +131,7 @@ mut("m17d_rc_clone_no_refcount", "C17", REF, "Self::RcRefCell(rc_ref_cell) => Se
 # ---- C19
 DIM = "src/dimensions.rs"
 mut("m19a_eq_assume_true_false_when_off", "C19", DIM, "        return self.const_eq(rhs);\n        #[cfg(not(any(\n            feature = \"dim_check_release\",\n            all(debug_assertions, feature = \"dim_check_debug\")\n        )))]\n        true\n    }\n    ///With dimension checking on, behaves exactly like [`const_eq`](Unit::const_eq).\n    ///With dimension checking off, always returns false.", "        return self.const_eq(rhs);\n        #[cfg(not(any(\n            feature = \"dim_check_release\",\n            all(debug_assertions, feature = \"dim_check_debug\")\n        )))]\n        false\n    }\n    ///With dimension checking on, behaves exactly like [`const_eq`](Unit::const_eq).\n    ///With dimension checking off, always returns false.", note="only unchecked builds change")
-mut("m19b_nostd_abs", "C19", DIM, "            if self.value >= 0.0 {\n                self.value\n            } else {\n                -self.value\n            },", "            if self.value >= 0.0 {\n                self.value\n            } else {\n                self.value\n            },", note="only no_std builds change")
+mut("m19b_nostd_abs", "C19", DIM, "            f32::from_bits(self.value.to_bits() & 0x7fff_ffff),", "            f32::from_bits(self.value.to_bits() & 0xffff_ffff),", note="only no_std builds change")
 mut("m19c_time_tryfrom_unchecked_scale", "C19", DIM, "        if was.unit.eq_assume_true(&SECOND) {\n            Ok(Self((was.value * 1_000_000_000.0) as i64))", "        if was.unit.eq_assume_true(&SECOND) {\n            #[cfg(not(any(feature = \"dim_check_release\", all(debug_assertions, feature = \"dim_check_debug\"))))]\n            return Ok(Self((was.value * 1_000_000.0) as i64));\n            #[allow(unreachable_code)]\n            Ok(Self((was.value * 1_000_000_000.0) as i64))", note="only unchecked builds change")
 mut("m19d_state_update_nostd_no_half", "C19", "src/state.rs", "            + delta_time * (old_velocity + new_velocity) / Quantity::dimensionless(2.0);", "            + delta_time * (old_velocity + new_velocity) / Quantity::dimensionless(if cfg!(feature = \"std\") { 2.0 } else { 1.0 });", note="only no_std builds change")
 mut("m19e_quantity_eq_unchecked", "C19", DIM, "        if self.unit.eq_assume_true(&rhs.unit) {\n            self.value == rhs.value", "        if self.unit.eq_assume_true(&rhs.unit) {\n            self.value >= rhs.value", note="PartialEq of the unchecked build only")
